@@ -31,11 +31,34 @@ def dump_mir():
 
 
 def load_consts(src_root):
+    """values of `pub const NAME: T = <expr>;` in abi.rs (literals, shifts/ors of literals and earlier constants)"""
     consts = {}
-    txt = open(os.path.join(src_root, "src", "abi.rs")).read()
-    for m in re.finditer(r"pub const (\w+): (u8|u16|u32|u64|usize|i32|i64) = (0x[0-9a-fA-F_]+|\d[\d_]*);", txt):
-        consts[m.group(1)] = (int(m.group(3).replace("_", ""), 0), m.group(2))
-    # constants defined in terms of others are not needed by the bodies we execute
+    txt = ""
+    srcdir = os.path.join(src_root, "src")
+    for fn in sorted(os.listdir(srcdir)):
+        if fn.endswith(".rs"):
+            txt += open(os.path.join(srcdir, fn)).read() + "\n"
+    pending = []
+    for m in re.finditer(r"(?:pub(?:\(\w+\))? )?const (\w+): (u8|u16|u32|u64|usize|i32|i64) = ([^;]+);", txt):
+        pending.append((m.group(1), m.group(2), m.group(3).strip()))
+    for _round in range(4):
+        rest = []
+        for name, ty, expr in pending:
+            e = re.sub(r"(\d)_(?=\d)", r"\1", expr)
+            e = re.sub(r"(?<![\w])(\d+|0x[0-9a-fA-F]+)(u8|u16|u32|u64|usize|i32|i64)\b", r"\1", e)
+            e = re.sub(r"\bas (u8|u16|u32|u64|usize|i32|i64)\b", "", e)
+            ids = set(re.findall(r"\b[A-Za-z_]\w*\b", e)) - {"x"}
+            ids = {i for i in ids if not re.match(r"^0x", i)}
+            if all(i in consts for i in ids) and re.match(r"^[\w\s<>|&+\-*()x]+$", e):
+                for i in sorted(ids, key=len, reverse=True):
+                    e = re.sub(r"\b%s\b" % i, str(consts[i][0]), e)
+                try:
+                    consts[name] = (int(eval(e, {"__builtins__": {}}, {})), ty)
+                    continue
+                except Exception:
+                    pass
+            rest.append((name, ty, expr))
+        pending = rest
     return consts
 
 
@@ -276,3 +299,338 @@ def lemma_new(prog, res):
         else:
             okk = errs and isinstance(v.f[0], Enum) and v.f[0].variant == "IOError"
             res.add("C17.seek_error_in_new_is_IOError", "holds" if okk else "violated", repr(v))
+
+
+# ---------------------------------------------------------------------------------------------------------
+# L2: accessor mirror (stream vs slice) for the straight-line accessors
+
+EHDR_LAYOUT = [("version", 32), ("osabi", 8), ("abiversion", 8), ("e_type", 16), ("e_machine", 16), ("e_entry", 64),
+               ("e_phoff", 64), ("e_shoff", 64), ("e_flags", 32), ("e_ehsize", 16), ("e_phentsize", 16), ("e_phnum", 16),
+               ("e_shentsize", 16), ("e_shnum", 16), ("e_shstrndx", 16)]
+
+
+def mk_ehdr(cls):
+    f = [Enum(cls, [], "Class"), Opaque("endian", data="E")]
+    for (n, w) in EHDR_LAYOUT:
+        f.append(IntV(z3.BitVec("ehdr." + n, w)))
+    return Agg(f, "FileHeader")
+
+
+def mk_shdr(prefix="arg"):
+    return Agg([IntV(z3.BitVec(f"{prefix}.{n}", w)) for (n, w) in model.SHDR_FIELDS], "SectionHeader")
+
+
+PHDR_FIELDS = [("p_type", 32), ("p_offset", 64), ("p_vaddr", 64), ("p_paddr", 64), ("p_filesz", 64), ("p_memsz", 64),
+               ("p_flags", 32), ("p_align", 64)]
+
+
+def mk_phdr(prefix="arg"):
+    return Agg([IntV(z3.BitVec(f"{prefix}.{n}", w)) for (n, w) in PHDR_FIELDS], "ProgramHeader")
+
+
+def equal_vals(a, b):
+    """z3 Bool: the two results denote the same content (slices: same file range)."""
+    if isinstance(a, Ref):
+        a = a.load()
+    if isinstance(b, Ref):
+        b = b.load()
+    if isinstance(a, IntV) and isinstance(b, IntV):
+        if a.e.size() != b.e.size():
+            return z3.BoolVal(False)
+        return a.e == b.e
+    if isinstance(a, z3.BoolRef) and isinstance(b, z3.BoolRef):
+        return a == b
+    if isinstance(a, (Slice, Buffer)) or isinstance(b, (Slice, Buffer)) or (isinstance(a, Agg) and a.ty == "Box"):
+        try:
+            sa, sb = model.as_slice(a), model.as_slice(b)
+        except sym.Unsupported:
+            return z3.BoolVal(False)
+        pa, pb = sa.file_pos(), sb.file_pos()
+        both_empty = z3.And(sa.len == 0, sb.len == 0)
+        if pa is None or pb is None:
+            return both_empty
+        return z3.Or(both_empty, z3.And(sa.len == sb.len, pa == pb))
+    if isinstance(a, Enum) and isinstance(b, Enum):
+        if a.variant != b.variant or len(a.f) != len(b.f):
+            return z3.BoolVal(False)
+        return z3.And([equal_vals(x, y) for x, y in zip(a.f, b.f)] + [z3.BoolVal(True)])
+    if isinstance(a, Agg) and isinstance(b, Agg):
+        if len(a.f) != len(b.f):
+            return z3.BoolVal(False)
+        return z3.And([equal_vals(x, y) for x, y in zip(a.f, b.f)] + [z3.BoolVal(True)])
+    if isinstance(a, Opaque) and isinstance(b, Opaque):
+        if a.label != b.label:
+            return z3.BoolVal(False)
+        if isinstance(a.data, tuple) and isinstance(b.data, tuple) and len(a.data) == len(b.data) == 2 and a.data[0] == b.data[0]:
+            return a.data[1] == b.data[1]
+        return z3.BoolVal(a.data is b.data or (isinstance(a.data, str) and a.data == b.data) or (a.data is None and b.data is None))
+    if isinstance(a, model.Collected) and isinstance(b, model.Collected):
+        return z3.And(equal_vals(a.sl, b.sl), z3.BoolVal(a.tyname == b.tyname))
+    return z3.BoolVal(False)
+
+
+def run_stream_method(prog, method, cls, mkargs, fault_free, scope=None, tag="st"):
+    solver = new_solver()
+    stats = dict(queries=0, paths=0)
+    fn = prog.find(("ElfStream", method))
+    if fn is None:
+        raise sym.Unsupported("no MIR body for ElfStream::" + method)
+
+    def path(ctx):
+        model.reader_env(ctx, fault_free=fault_free)
+        cr = model.mk_caching_reader(ctx)
+        st = Agg([mk_ehdr(cls), Opaque("shdrs"), Opaque("phdrs"), cr], "ElfStream")
+        args = mkargs()
+        if scope is not None:
+            ctx.assume(scope(args))
+        ctx.env["args"] = args
+        ex = sym.Exec(prog, ctx)
+        return ex.call_fn(fn, [Ref([st], 0)] + [Ref([a], 0) for a in args])
+    paths = sym.explore(prog, path, solver, stats, tag=tag)
+    return paths, solver, stats
+
+
+def run_bytes_method(prog, method, cls, mkargs, scope=None, tag="by"):
+    solver = new_solver()
+    stats = dict(queries=0, paths=0)
+    fn = prog.find(("ElfBytes", method))
+    if fn is None:
+        raise sym.Unsupported("no MIR body for ElfBytes::" + method)
+
+    def path(ctx):
+        model.reader_env(ctx, fault_free=True)
+        file = ctx.env["file"]
+        eb = Agg([mk_ehdr(cls), Slice(file, bv(0), ctx.env["file_len"]), Opaque("shdrs"), Opaque("phdrs")], "ElfBytes")
+        args = mkargs()
+        if scope is not None:
+            ctx.assume(scope(args))
+        ctx.env["args"] = args
+        ex = sym.Exec(prog, ctx)
+        return ex.call_fn(fn, [Ref([eb], 0)] + [Ref([a], 0) for a in args])
+    paths = sym.explore(prog, path, solver, stats, tag=tag)
+    return paths, solver, stats
+
+
+def not_compressed(args):
+    return (args[0].f[2].e & 0x800) == 0
+
+
+ACCESSORS = [
+    # (method, header kind, scoped by SHF_COMPRESSED, named in the property's exact-coincidence list, designated range fields)
+    ("section_data", "shdr", True, True),
+    ("section_data_as_strtab", "shdr", True, False),
+    ("section_data_as_rels", "shdr", True, False),
+    ("section_data_as_relas", "shdr", True, False),
+    ("section_data_as_notes", "shdr", True, False),
+    ("segment_data_as_notes", "phdr", False, True),
+]
+
+
+def designated_range(kind, args):
+    h = args[0]
+    if kind == "shdr":
+        return h.f[4].e, h.f[5].e
+    return h.f[1].e, h.f[4].e
+
+
+def lemma_L2(prog, res, methods=None, classes=("ELF32", "ELF64")):
+    for (method, kind, scoped, named) in ACCESSORS:
+        if methods and method not in methods:
+            continue
+        mk = (lambda: [mk_shdr()]) if kind == "shdr" else (lambda: [mk_phdr()])
+        scope = not_compressed if scoped else None
+        for cls in classes:
+            tagm = f"{method}[{cls}]"
+            try:
+                sp, ssol, sst = run_stream_method(prog, method, cls, mk, fault_free=True, scope=scope)
+                bp, bsol, bst = run_bytes_method(prog, method, cls, mk, scope=scope)
+                fp, fsol, fst = run_stream_method(prog, method, cls, mk, fault_free=False, scope=scope, tag="sf")
+            except sym.Unsupported as u:
+                res.add(f"L2.encode({tagm})", "inconclusive", str(u))
+                continue
+            for st in (sst, bst, fst):
+                res.stats["queries"] += st["queries"]
+                res.stats["paths"] += st["paths"]
+            solver = new_solver()
+            n_pairs = 0
+            both_ok = 0
+            for ps in sp:
+                for pb in bp:
+                    pc = ps["pc"] + pb["pc"]
+                    res.stats["queries"] += 1
+                    if solver.check(*pc) != z3.sat:
+                        continue
+                    n_pairs += 1
+                    if ps["status"] != "ok" or pb["status"] != "ok":
+                        continue
+                    vs, vb = ps["value"], pb["value"]
+                    if is_ok(vb) and is_err(vs):
+                        mdl = solver.model()
+                        res.add(f"C07.slice_ok_implies_stream_ok({tagm})", "violated", model_str(mdl), mdl)
+                    elif is_ok(vs) and is_err(vb):
+                        if named:
+                            mdl = solver.model()
+                            res.add(f"C07.stream_ok_implies_slice_ok({tagm})", "violated", model_str(mdl), mdl)
+                    elif is_ok(vs) and is_ok(vb):
+                        both_ok += 1
+                        okv, mdl = valid(res, solver, pc, equal_vals(vs.f[0], vb.f[0]))
+                        res.add(f"C07.same_content({tagm})", "holds" if okv else "violated",
+                                "" if okv else f"stream={vs.f[0]!r} slice={vb.f[0]!r} :: {model_str(mdl)}", mdl)
+            res.add(f"C07.okness_coincides({tagm})", "holds" if not any(o["status"] == "violated" and tagm in o["name"] for o in res.obligations) else "violated",
+                    f"{len(sp)} stream paths x {len(bp)} slice paths, {n_pairs} jointly satisfiable, {both_ok} both-Ok")
+            res.add(f"L2.witness.both_ok_pair_exists({tagm})", "holds" if both_ok >= 1 else "inconclusive")
+            # per-path obligations on the stream side
+            for p in sp + fp:
+                if p["status"] != "ok":
+                    res.add(f"C08.no_panic({tagm})", "violated", f"{p['status']} decisions={p['decisions']}")
+                    continue
+                s0, n0 = designated_range(kind, p["env"]["args"])
+                sol = ssol
+                for ev in p["events"]:
+                    if ev[0] == "alloc":
+                        okv, mdl = valid(res, sol, p["pc"], z3.ULE(ev[1], p["env"]["stream_len"]))
+                        res.add(f"C08.alloc<=stream_len({tagm})", "holds" if okv else "violated", model_str(mdl), mdl)
+                    if ev[0] == "read_exact":
+                        okv, mdl = valid(res, sol, p["pc"], z3.And(ev[2] == s0, ev[3] == n0))
+                        res.add(f"C08.reads_only_designated_range({tagm})", "holds" if okv else "violated",
+                                "" if okv else f"read_exact(pos={ev[2]}, len={ev[3]}) vs designated ({s0},{n0}): {model_str(mdl)}", mdl)
+                    if ev[0] == "seek" and ev[1] != "start":
+                        res.add(f"C08.reads_only_designated_range({tagm})", "violated", "seek relative to end/current in a query")
+                v = p["value"]
+                ioerrs = io_err_events(p["events"])
+                inserts = [ev for ev in p["events"] if ev[0] == "map_insert"]
+                if ioerrs:
+                    res.add(f"C17.io_failure_gives_err({tagm})", "holds" if is_err(v) else "violated",
+                            "" if is_err(v) else f"Ok({v.f[0]!r}) after {ioerrs}")
+                if is_err(v):
+                    res.add(f"C17.err_leaves_no_residue({tagm})", "holds" if not inserts else "violated",
+                            "" if not inserts else "cache insert on a path that returns Err")
+                if is_ok(v):
+                    if check_cache_inv(res, sol, p, f"C17.cache_inv_preserved({tagm})"):
+                        res.add(f"C17.cache_inv_preserved({tagm})", "holds")
+            res.add(f"C08.no_panic({tagm})", "holds" if not any(o["status"] == "violated" and o["name"] == f"C08.no_panic({tagm})" for o in res.obligations) else "violated",
+                    f"{len(sp) + len(fp)} stream paths")
+
+
+# ---------------------------------------------------------------------------------------------------------
+# L3: open_stream mirrors minimal_parse (also decides the stream side of C05 and the open clauses of C08/C17)
+
+
+def run_open_stream(prog, fault_free, tag="os"):
+    solver = new_solver()
+    stats = dict(queries=0, paths=0)
+    fn = prog.find(("ElfStream", "open_stream"))
+
+    def path(ctx):
+        model.reader_env(ctx, fault_free=fault_free)
+        ex = sym.Exec(prog, ctx)
+        return ex.call_fn(fn, [Opaque("reader")])
+    return sym.explore(prog, path, solver, stats, tag=tag), solver, stats
+
+
+def run_minimal_parse(prog, tag="mp"):
+    solver = new_solver()
+    stats = dict(queries=0, paths=0)
+    fn = prog.find(("ElfBytes", "minimal_parse"))
+
+    def path(ctx):
+        model.reader_env(ctx, fault_free=True)
+        ex = sym.Exec(prog, ctx)
+        return ex.call_fn(fn, [Slice(ctx.env["file"], bv(0), ctx.env["file_len"])])
+    return sym.explore(prog, path, solver, stats, tag=tag), solver, stats
+
+
+def table_of_bytes(opt):
+    """ElfBytes.shdrs/phdrs: Option<ParsingTable{endian,class,data,pd}> -> (present, slice)"""
+    if isinstance(opt, Enum) and opt.variant == "Some":
+        return True, model.as_slice(opt.f[0].f[2])
+    return False, None
+
+
+def table_of_stream(v):
+    if isinstance(v, model.Collected):
+        if v.tyname == "empty":
+            return False, None
+        return True, v.sl
+    raise sym.Unsupported(f"stream table {v!r}")
+
+
+def lemma_L3(prog, res):
+    try:
+        sp, ssol, sst = run_open_stream(prog, fault_free=True)
+        bp, bsol, bst = run_minimal_parse(prog)
+        fp, fsol, fst = run_open_stream(prog, fault_free=False, tag="of")
+    except sym.Unsupported as u:
+        res.add("L3.encode(open_stream/minimal_parse)", "inconclusive", str(u))
+        return
+    for st in (sst, bst, fst):
+        res.stats["queries"] += st["queries"]
+        res.stats["paths"] += st["paths"]
+    solver = new_solver()
+    pairs = both = 0
+    for ps in sp:
+        for pb in bp:
+            pc = ps["pc"] + pb["pc"]
+            res.stats["queries"] += 1
+            if solver.check(*pc) != z3.sat:
+                continue
+            pairs += 1
+            if ps["status"] != "ok" or pb["status"] != "ok":
+                continue
+            vs, vb = ps["value"], pb["value"]
+            if is_ok(vs) != is_ok(vb):
+                mdl = solver.model()
+                res.add("C07.open_succeeds_iff_slice_open_succeeds", "violated",
+                        f"stream {'Ok' if is_ok(vs) else 'Err'} / slice {'Ok' if is_ok(vb) else 'Err'}: {model_str(mdl, 30)}", mdl)
+                continue
+            if not is_ok(vs):
+                continue
+            both += 1
+            es, eb = vs.f[0], vb.f[0]
+            # identical file header
+            okv, mdl = valid(res, solver, pc, equal_vals(es.f[0], eb.f[0]))
+            res.add("C07.open_same_file_header", "holds" if okv else "violated", model_str(mdl), mdl)
+            # section / program header tables cover the same file range with the same class
+            for (nm, si, bi) in (("section", 1, 2), ("program", 2, 3)):
+                sp_present, ssl = table_of_stream(es.f[si])
+                bp_present, bsl = table_of_bytes(eb.f[bi])
+                if sp_present and bp_present:
+                    okv, mdl = valid(res, solver, pc, equal_vals(ssl, bsl))
+                    res.add(f"C05.stream_{nm}_table_located_as_slice_parser", "holds" if okv else "violated",
+                            "" if okv else f"stream {ssl!r} vs slice {bsl!r}: {model_str(mdl, 30)}", mdl)
+                elif sp_present != bp_present:
+                    # an absent table on one side must be an empty one on the other
+                    sl = ssl if sp_present else bsl
+                    okv, mdl = valid(res, solver, pc, sl.len == 0)
+                    # ElfBytes keeps Some(empty table) where ElfStream keeps an empty Vec: same (empty) content
+                    res.add(f"C05.stream_{nm}_table_located_as_slice_parser", "holds" if okv else "violated",
+                            "" if okv else f"{nm} table present on one side only: {model_str(mdl, 30)}", mdl)
+                else:
+                    res.add(f"C05.stream_{nm}_table_located_as_slice_parser", "holds")
+    res.add("L3.witness.both_open_ok_pairs", "holds" if both >= 2 else "inconclusive", f"{len(sp)}x{len(bp)} paths, {pairs} joint, {both} both-Ok")
+    if not any(o["name"] == "C07.open_succeeds_iff_slice_open_succeeds" for o in res.obligations):
+        res.add("C07.open_succeeds_iff_slice_open_succeeds", "holds", f"{pairs} jointly satisfiable path pairs")
+    # per-path obligations of open_stream under arbitrary faults
+    for p in sp + fp:
+        if p["status"] != "ok":
+            res.add("C08.no_panic(open_stream)", "violated", f"{p['status']} decisions={p['decisions']}")
+            continue
+        sol = ssol
+        env = p["env"]
+        for ev in p["events"]:
+            if ev[0] == "alloc":
+                sl_ = env.get("stream_len_value", env["file_len"])
+                okv, mdl = valid(res, sol, p["pc"], z3.ULE(ev[1], env["file_len"]))
+                res.add("C08.alloc<=stream_len(open_stream)", "holds" if okv else "violated", model_str(mdl), mdl)
+        v = p["value"]
+        ioerrs = io_err_events(p["events"])
+        if ioerrs:
+            res.add("C17.io_failure_gives_err(open_stream)", "holds" if is_err(v) else "violated", "" if is_err(v) else f"Ok after {ioerrs}")
+        if is_ok(v):
+            m = v.f[0].f[3].f[2]
+            res.add("C08.open_clears_its_cache", "holds" if (m.cleared and not m.over) else "violated")
+        # laziness: reads during open are header, tail, shdr[0], the two tables -- nothing else
+        reads = [ev for ev in p["events"] if ev[0] == "read_exact"]
+        res.add("C08.open_reads_at_most_5_ranges", "holds" if len(reads) <= 6 else "violated", f"{len(reads)} reads")
+    res.add("C08.no_panic(open_stream)", "holds" if not any(o["name"] == "C08.no_panic(open_stream)" and o["status"] == "violated" for o in res.obligations) else "violated",
+            f"{len(sp) + len(fp)} paths")
